@@ -210,9 +210,21 @@ func init() {
 					x.check(ok, fmt.Sprintf("%s return#%d flush-before-exit", k, i+1), x.pos(r), "pending events are flushed before the loop exits", "the publisher exits without flushing the pending batch: events published just before the last unsubscribe are lost")
 				}
 			}
-			// publish(): the batch is swapped out under the mutex
-			if fn := x.fn(psPkg + ".(*BatchPublisher).Publish"); fn != nil {
+			// publish(): the batch is swapped out — the pending batch restarts from nil/a fresh slice, never from a
+			// re-slice of the batch being delivered (they would share one backing array)
+			if fn := x.fn(psPkg + ".(*BatchPublisher).publish"); fn != nil {
 				_ = strings.TrimSpace
+				evF := fieldNamed(fn, "BatchPublisher", "events")
+				ok, n := true, 0
+				for _, st := range storesTo(fn, evF) {
+					n++
+					switch prog.Strip(st.Val).(type) {
+					case *ssa.Const, *ssa.MakeSlice:
+					default:
+						ok = false
+					}
+				}
+				x.check(n >= 1 && ok, "func="+prog.FnName(fn)+" pending-batch-restarts-fresh", x.fpos(fn), "the pending batch restarts from nil or a fresh slice", "the pending batch is a re-slice of the batch being delivered: a Publish during the flush overwrites events that were not delivered yet")
 			}
 		}})
 
